@@ -6,3 +6,12 @@ from .data import *
 from .encrypt import *
 from .packet import *
 from .protocol import *
+
+# Star-imports also copy attributes that are modules (for example eolib.protocol.net.packet as
+# "packet"), which would shadow the subpackages of the same name. Bind the subpackages last.
+import sys as _sys
+
+data = _sys.modules[__name__ + ".data"]
+encrypt = _sys.modules[__name__ + ".encrypt"]
+packet = _sys.modules[__name__ + ".packet"]
+protocol = _sys.modules[__name__ + ".protocol"]
